@@ -77,7 +77,7 @@ def rule_format(run):
     )
     idx = run.idx
     mod = idx.mod(FX)
-    fmts = [(l, r) for l in range(-2, 4) for r in range(-2, l + 1)]
+    fmts = [(l, r) for l in range(-2, run.bound(4, 5)) for r in range(run.bound(-2, -3), l + 1)]
     for kind in ("SFixed", "UFixed"):
         for op in ("__add__", "__sub__", "__mul__"):
             f = mod.func(f"{kind}.{op}")
@@ -163,7 +163,7 @@ def rule_ctor_abs(run):
         floor=100,
     )
     mod = run.idx.mod(FX)
-    fmts = [(l, r) for l in range(-1, 4) for r in range(-3, l + 1)]
+    fmts = [(l, r) for l in range(-1, run.bound(4, 6)) for r in range(run.bound(-3, -4), l + 1)]
     for kind, rawkind in (("SFixed", "Signed"), ("UFixed", "Unsigned")):
         f = mod.func(f"{kind}.__init__")
 
@@ -200,7 +200,7 @@ def rule_ctor_abs(run):
             for vk in ("Signed", "Unsigned"):
                 if kind == "UFixed" and vk == "Signed":
                     continue
-                for wv in (1, 2, 3):
+                for wv in run.bound((1, 2, 3), (1, 2, 3, 4, 5)):
                     self_m = {"_width": w, "_exp": r, "left": (lambda l=l: l), "right": (lambda r=r: r), "_kind": kind}
                     val = Raw(wv, 0, vk)
                     detail = f"{kind}[{l}:{r}]({vk}[{wv}])"
